@@ -32,12 +32,26 @@ def run(res):
     cases = [sessioncheck.build_case(rnd, n_events=rnd.choice([25, 40, 60, 90]), chatter=0.03) for _ in range(n)]
     sessioncheck.run_cases(res, cases, owns, 'attribution', theorem='C02_latest_incarnation / C02_creation_exact',
                            nontrivial=reused, kernel_sample=15 if res.tier == 'quick' else 100)
-    res.rule = ('generated well-formed multi-connection histories (25-90 lines) in 4 libwayland dialects; '
+    # the same attribution in GDB mode, where an address is closed and used again by a NEW connection (often with no other
+    # connection's message in between): every mention after the re-open belongs to the new connection's fresh table
+    import gdbcheck
+    n2 = 60 if res.tier == 'quick' else 2500
+    gcases = [gdbcheck.build_case(rnd, n_addr=rnd.choice([1, 1, 2])) for _ in range(n2)]
+    gdbcheck.run_cases(res, gcases, lambda cat: cat in OWN or cat.startswith('final.conn'), 'C02 (attribution after an address is used again, gdb mode)',
+                       theorem='C02_latest_incarnation / C15_lifetime_is_solo', nontrivial=lambda c, m: False, kernel_sample=3)
+    res.rule = ('generated well-formed multi-connection histories (25-90 lines) in 4 libwayland dialects; plus gdb-mode sessions with re-used addresses; '
                 'non-trivial = agreeing history in which some id has at least two incarnations; distinct by input text')
 
 
 def replay(dis):
     c = dis['input']
+    if 'impl_events' not in c:
+        import gdbcheck
+        m = common.model_eval('session', [[sessioncheck.mcfg(c['config']), gdbcheck.model_events(c['events'])]], shards=1)[0]
+        r = gdbcheck.compare_case(c, m)
+        print('differences:', r)
+        print('REPRODUCED' if r and r != 'oom' else 'not reproduced on the current tree')
+        return 1 if r and r != 'oom' else 0
     m = common.model_eval('session', [[sessioncheck.mcfg(c['config']), c['events']]], shards=1)[0]
     r = sessioncheck.compare_case(c, m)
     print('differences:', r)
